@@ -61,7 +61,9 @@ def work(job):
             jid = '%s:%s' % (cid, eng)
             if mode == 'cancel':
                 k = rng.randint(1, 8)   # receive() before the first step() is C10's subject
-                ops = ['step0'] * k + ['recv e1', 'step0', 'cancel'] + ['step0'] * 6
+                # cancel at different points: idle, right after an event was queued, and in the middle of the macrostep it starts
+                mid = rng.randint(0, 3)
+                ops = ['step0'] * k + ['recv ' + rng.choice(['e1', 'e2', 'e3'])] + ['step0'] * mid + ['cancel'] + ['step0'] * 12
                 jobs.append((jid, T.job_text(jid, eng, xml, ops=ops, flags=['novars'])))
             else:
                 jobs.append((jid, T.job_text(jid, eng, xml, h, flags=['novars'])))
